@@ -671,9 +671,10 @@ def production_step_units(world):
         def call(it, w, a):
             s_top, rest, SP, ns, seen = a
             f = w.func("ctparse._ctparse")
-            loop = find_loop(f.node)
+            from contracts.toplevel import search_locals
+            nm, loop = search_locals(f.node)
             if loop is None:
-                raise Unsupported("production loop `while stack:` not found")
+                raise Unsupported("production loop (`while <stack>:` whose body pops from it) not found")
             fr = Frame(f, None)
             fr.yielded = []
             new_pp = None
@@ -708,13 +709,14 @@ def production_step_units(world):
                 return None
             stack = rest + [s_top]
             seen["stack0"] = list(stack)
-            fr.vars.update({"stack": stack, "t_fun": Builtin("t_fun", t_fun), "ts": Tok("ts"), "txt": Tok("txt"),
+            fr.vars.update({nm["stack"]: stack, nm["check"]: Builtin("t_fun", t_fun), "ts": Tok("ts"), "txt": Tok("txt"),
                             "scorer": ModVal("scorer", {"score": Builtin("score", score), "score_final": Builtin("score_final", score_final)}),
-                            "stack_prod": SP, "parse_prod": SymMap("parse_prod"), "max_stack_depth": depth,
-                            "subject": Tok("subject"), "labels": Tok("labels")})
+                            nm["stack_table"]: SP, nm["emit_table"]: SymMap("parse_prod"), "max_stack_depth": depth,
+                            nm["subject"]: Tok("subject"), nm["labels"]: Tok("labels")})
+            seen["stack_name"] = nm["stack"]
             # exactly one iteration of the loop body
             it.exec_fragment(loop.body, fr)
-            return (fr.vars["stack"], fr.yielded)
+            return (fr.vars[nm["stack"]], fr.yielded)
 
         def ens(it, w, a, r):
             s_top, rest, SP, ns, seen = a
@@ -820,9 +822,11 @@ def initial_filter_unit(world):
             if not stmts:
                 raise Unsupported("initial-stack filter block not found")
             fr = Frame(f, None)
-            fr.vars.update({"stack": list(items), "relative_match_len": rml, "max_stack_depth": depth})
+            from contracts.toplevel import search_locals
+            nm, _ = search_locals(f.node)
+            fr.vars.update({nm["stack"]: list(items), "relative_match_len": rml, "max_stack_depth": depth})
             it.exec_fragment(stmts, fr)
-            return fr.vars["stack"]
+            return fr.vars[nm["stack"]]
 
         def ens(it, w, a, r):
             items, rml = a
